@@ -98,5 +98,10 @@ func getVars(term ast.Term, vars map[ast.Variable]bool) {
 	case ast.Eq:
 		ast.AddVars(t.Left, vars)
 		ast.AddVars(t.Right, vars)
+	case ast.TemporalLiteral:
+		// A positive temporal literal binds the variables of its atom and of its interval.
+		if _, ok := t.Literal.(ast.Atom); ok {
+			ast.AddVars(t, vars)
+		}
 	}
 }
